@@ -57,6 +57,8 @@ var (
 	setupRecorder = &localSink{}
 	setupVerdictN = map[string]int{} // verdict class -> calls
 	setupIncon    []string           // what could not be decided (reported by case 0 as inconclusive)
+	// operations that plan construction stopped calling (suspendAfterTrips failures of one key) -> calls rejected unseen
+	setupSuspendedOps = map[string]int{}
 )
 
 // ---------------------------------------------------------------------------
@@ -151,7 +153,7 @@ func describeHEVCPPS(m map[uint32]*hevc.PPS) ([]psRef, bool) {
 
 type vetVerdict struct {
 	Hash  uint64   `json:"hash"`
-	Class string   `json:"class"` // ok | ok-alloc | cpu | alloc | fatal | cpu-presumed | cpu-unconfirmed | unvetted
+	Class string   `json:"class"` // ok | ok-alloc | cpu | alloc | fatal | cpu-presumed | cpu-unconfirmed | suspended | unvetted
 	Key   string   `json:"key,omitempty"`
 	What  string   `json:"what,omitempty"`
 	W     *witness `json:"witness,omitempty"`
@@ -172,6 +174,9 @@ var (
 	vetOff     bool // no vetting (go test binaries cannot be started as probes)
 	vetSpawned int
 	okVerdict  = &vetVerdict{Class: "ok"}
+	// bad verdicts per (operation, key) and the operations that are not vetted (and not called) any more
+	vetBadByOp   = map[string]int{}
+	vetSuspended = map[string]bool{}
 )
 
 const vetEnv = "C16_SETUP_VETTED"
@@ -201,7 +206,7 @@ func vetInit(scratch, repo, tier string) {
 	}
 	for _, v := range vf.Bad {
 		vetCache[v.Hash] = v
-		if v.Class == "cpu" {
+		if v.Class == "cpu" && !devIgnoreSetupFindings() {
 			knownHangs[v.Key] = true // later calls found inside the same function are presumed repeats
 		}
 	}
@@ -264,8 +269,23 @@ func vetCall(sc *setupCall, base [][]byte) *vetVerdict {
 		return v
 	}
 	v := &vetVerdict{Class: "unvetted"}
-	if !vetOff {
+	switch {
+	case vetOff:
+	case vetSuspended[sc.Op]:
+		// (the verdicts are made once, by the parent, in the order of plan construction: the same for every worker)
+		v = &vetVerdict{Class: "suspended"}
+	default:
 		v = scoutVerdict(sc, base)
+		switch v.Class {
+		case "cpu", "cpu-presumed", "alloc", "fatal":
+			// a defect that most calls of an operation reach costs one bare probe per call (a fatal one a quarter of a second):
+			// after suspendAfterTrips such verdicts of one key the operation counts as rejecting everything
+			k := sc.Op + " behind " + v.Key
+			vetBadByOp[k]++
+			if vetBadByOp[k] >= suspendAfterTrips {
+				vetSuspended[sc.Op] = true
+			}
+		}
 	}
 	if v != okVerdict {
 		v.Hash = h
@@ -404,8 +424,11 @@ func libCall(sc *setupCall, describable bool, base [][]byte, f func()) bool {
 		if _, dup := setupViol[v.Key]; !dup {
 			setupViol[v.Key] = &setupViolation{key: v.Key, what: v.What, w: v.W}
 		}
+	case "suspended":
+		setupSuspendedOps[sc.Op]++
+		return false
 	case "cpu-presumed":
-		return false // a repeat of a recorded hang key: rejected, not reported again
+		return false // a repeat of a recorded key: rejected, not reported again
 	case "cpu-unconfirmed":
 		setupIncon = append(setupIncon, "setup: cpu exceedance of "+sc.Op+" not reproduced in a fresh process")
 		return false
@@ -439,8 +462,18 @@ func libCall(sc *setupCall, describable bool, base [][]byte, f func()) bool {
 	return false
 }
 
+// devIgnoreSetupFindings (validation aid, C16_DEV_IGNORE_SETUP_FINDINGS=1): the
+// verdicts still keep plan construction safe, but they are neither reported
+// nor used as known hang keys, so that one can see which generators find a
+// defect on their own that setup happens to hit as well.
+func devIgnoreSetupFindings() bool { return os.Getenv("C16_DEV_IGNORE_SETUP_FINDINGS") != "" }
+
 // reportSetupViolations is called by case 0.
 func reportSetupViolations(c *runner.Ctx) {
+	if devIgnoreSetupFindings() {
+		c.Count("setup_findings_ignored(development aid)", int64(len(setupViol)))
+		return
+	}
 	c.Count("setup_library_calls_guarded", int64(setupGuardN))
 	c.Count("setup_library_calls_panicked", int64(setupPanicN))
 	for cl, n := range setupVerdictN {
@@ -457,6 +490,9 @@ func reportSetupViolations(c *runner.Ctx) {
 		c.Violation(v.key, v.what, v.w)
 		c.Seen("panicking_op", v.w.Op+" (setup)")
 		c.Seen("violation_key_by_generator", "setup "+v.key)
+	}
+	for op, n := range setupSuspendedOps {
+		c.Seen("operation_suspended_during_plan_construction", fmt.Sprintf("%s (%d later calls counted as rejected)", op, n))
 	}
 	for _, s := range setupIncon {
 		c.Inconclusive(s)
